@@ -1,5 +1,3 @@
 SPECIFICATION Spec
-CONSTANTS
-  Strict = FALSE
 POSTCONDITION Accepted
 CHECK_DEADLOCK FALSE
